@@ -1059,6 +1059,15 @@ bool maybe_invalid_bool(const std::string &s)
 void run_loads(const std::string &bytes, const char *mode, const uint8_t *unit, size_t unit_size)
 {
     fz::Stats &st = fz::stats();
+    if (const char *dump = getenv("VERIF_FZ_DUMP")) {
+        // replay aid: write the mode-A unit equivalent to this (possibly structure-aware) unit, so that a reproducer
+        // does not depend on the op-program / edit encoding of this file
+        if (FILE *f = fopen(dump, "wb")) {
+            fputc(0, f);
+            fwrite(bytes.data(), 1, bytes.size(), f);
+            fclose(f);
+        }
+    }
     if (st.tag("load_bool_invalid_byte") && maybe_invalid_bool(bytes)) {
         st.exclude("load_bool_invalid_byte");
         return;
